@@ -50,8 +50,140 @@ def is_empty(fmt, arg):
     return (fmt == 'int' and int(arg) == 0) or (fmt in ('hex', 'bytes') and arg == '-')
 
 
+def kw_of(s):
+    """'st=p2pkh,enc=base58,...' -> dict of raw tokens ('-' = no keyword at all)"""
+    return {} if s == '-' else dict(x.split('=', 1) for x in s.split(','))
+
+
+def prefix_kw(kw):
+    # pfx=<hex> as bytes, pfxh=<hex> as hexadecimal string, pfxs=<text> as text (bech32 hrp)
+    if 'pfx' in kw:
+        return {'prefix': bytes.fromhex(kw['pfx'])}
+    if 'pfxh' in kw:
+        return {'prefix': kw['pfxh']}
+    if 'pfxs' in kw:
+        return {'prefix': kw['pfxs']}
+    return {}
+
+
+def addr_kwargs(kw):
+    a = prefix_kw(kw)
+    if 'st' in kw:
+        a['script_type'] = kw['st']
+    if 'enc' in kw:
+        a['encoding'] = kw['enc']
+    if 'comp' in kw:
+        a['compressed'] = kw['comp'] == '1'
+    return a
+
+
+def key_of(entry, d, cp, net, wt):
+    if entry == 'HDKey':
+        if wt == 'N':
+            return HDKey(int(d), network=net, compressed=cp == '1')
+        return HDKey(int(d), network=net, compressed=cp == '1', witness_type=wt)
+    return Key(int(d), network=net, compressed=cp == '1')
+
+
+def addrx(t):
+    """argument combinations of Address(...) / Key.address(...) / HDKey.address(...) / Address.parse"""
+    if t[0] == 'A':
+        net, data, kws = t[1:]
+        kw = kw_of(kws)
+        a = addr_kwargs(kw)
+        if 'wt' in kw:
+            a['witness_type'] = kw['wt']
+        if 'witver' in kw:
+            a['witver'] = int(kw['witver'])
+        if net != 'N':
+            a['network'] = net
+        v = unhx(data).hex() if kw.get('form') == 'hex' else unhx(data)
+        try:
+            if kw.get('hd') == '1':
+                return Address(hashed_data=v, **a).address or '-'
+            if kw.get('pos') == '1':
+                return Address(v, **a).address or '-'
+            return Address(data=v, **a).address or '-'
+        except Exception:
+            return 'ERR'
+    if t[0] in ('K', 'H'):
+        net, d, cp, wt, kws = t[1:]
+        kw = kw_of(kws)
+        try:
+            key = key_of('HDKey' if t[0] == 'H' else 'Key', d, cp, net, wt)
+        except Exception:
+            return 'ERR import'
+        try:
+            a = addr_kwargs(kw)
+            if kw.get('m') == 'u':
+                a.pop('compressed', None)
+                return key.address_uncompressed(**a)
+            if kw.get('m') == 'o':
+                return key.address_obj.address
+            return key.address(**a)
+        except Exception:
+            return 'ERR'
+    if t[0] == 'P':
+        addr, net, enc = t[1:]
+        try:
+            a = Address.parse(addr, network=nn(net), encoding=nn(enc))
+            return 'OK %s %s %s %s' % (a.address, a.script_type, hx(a.hash_bytes), a.network.name)
+        except Exception:
+            return 'ERR'
+    return 'BADREQ'
+
+
+def sess(t):
+    """a history on ONE key object: sess <entry> <d> <cp> <net> <wt> <step>...; one answer per step, joined by '|'"""
+    entry, d, cp, net, wt = t[:5]
+    from bitcoinlib.networks import Network
+    try:
+        key = key_of(entry, d, cp, net, wt)
+    except Exception:
+        return 'ERR import'
+    out = []
+    for step in t[5:]:
+        f = step.split(':')
+        try:
+            if f[0] == 'a':
+                out.append(key.address(**addr_kwargs(kw_of(f[1]))))
+            elif f[0] == 'u':
+                a = addr_kwargs(kw_of(f[1]))
+                a.pop('compressed', None)
+                out.append(key.address_uncompressed(**a))
+            elif f[0] == 'o':
+                out.append(key.address_obj.address)
+            elif f[0] == 'h':
+                out.append(hx(key.hash160))
+            elif f[0] == 'pc':
+                out.append(key.public_compressed_hex)
+            elif f[0] == 'pu':
+                out.append(key.public_uncompressed_hex)
+            elif f[0] == 'ph':
+                out.append(key.public_hex)
+            elif f[0] == 'pb':
+                out.append(hx(key.public_byte))
+            elif f[0] == 'pp':
+                out.append(key.public().address(**addr_kwargs(kw_of(f[1]))))
+            elif f[0] == 'n':
+                if entry == 'HDKey':
+                    key.network_change(f[1])
+                else:
+                    key.network = Network(f[1])
+                out.append('ok')
+            else:
+                out.append('BADSTEP')
+        except Exception:
+            out.append('ERR')
+    return '|'.join(out)
+
+
 def dispatch(t):
     k = t[0]
+    if k == 'addrx':
+        return addrx(t[1:])
+    if k == 'sess':
+        return sess(t[1:])
     if k == 'import':
         entry, fmt, arg, c, s, net = t[1:]
         try:
